@@ -12,6 +12,7 @@ import (
 	"encoding/base64"
 	"fmt"
 	"regexp"
+	"sort"
 	"strconv"
 	"strings"
 	"time"
@@ -61,10 +62,59 @@ var vTokenRe = regexp.MustCompile(`[A-Za-z0-9+/=]+\.[A-Za-z0-9+/=]+\.[A-Za-z0-9+
 
 func init() { vMonitors["C13"] = monC13 }
 
+var vC13Twin vTwinSlot
+
+func vC13Out(msgs []*robust.Message) string {
+	var b strings.Builder
+	for _, m := range msgs {
+		if strings.Contains(m.Data, " 003 ") {
+			continue
+		}
+		var rs []string
+		for id, ok := range m.InterestingFor {
+			if ok {
+				rs = append(rs, strconv.FormatUint(id, 10))
+			}
+		}
+		sort.Strings(rs)
+		fmt.Fprintf(&b, "%q->%s\n", m.Data, strings.Join(rs, ","))
+	}
+	return b.String()
+}
+
+// vC13Restored: a request that has no effect on this node (refused, or a query) is repeated on a node that was
+// restored from a snapshot of the same state.  What decides about a privileged effect (bans, modes, invitations,
+// operator and services status, the captcha grace period) must survive the snapshot: if the restored node
+// answers differently AND its state changes, it granted what this node refused.
+func vC13Restored(c *VCtx) {
+	if c.Changed || c.Step.Panic != nil {
+		return
+	}
+	tw, st := vC13Twin.apply(c)
+	if st == nil || st.Panic != nil {
+		return
+	}
+	c.Count("c13_requests_without_effect_repeated_on_a_restored_node")
+	if vC13Out(st.Msgs) == vC13Out(c.Step.Msgs) {
+		return
+	}
+	vC13Twin.inst = nil // whatever happened there, the next entry starts from the saved pre-state
+	ref := VerifNewServer()
+	if _, err := ref.Unmarshal(vC13Twin.bytes); err != nil {
+		return
+	}
+	if VerifDump(ref, VerifDumpOpts{NoStamps: true}) == VerifDump(tw.Srv, VerifDumpOpts{NoStamps: true}) {
+		return // answered differently, changed nothing: not a grant (C03 compares the answers)
+	}
+	c.Report("a request that is refused on the node takes effect on a node restored from a snapshot ["+vEntryCmd(&c.Step.Entry)+"]",
+		fmt.Sprintf("%s: no effect on the node that ran the history (%d replies), but on a node whose state went through Marshal/Unmarshal it changes the state; replies there: %s", c.Step.Entry.String(), len(c.Step.Msgs), vC13Out(st.Msgs)))
+}
+
 func monC13(c *VCtx) {
 	if c.Step.Panic != nil {
 		return
 	}
+	vC13Restored(c)
 	v := c.Pre
 	i := c.In.Srv
 	e := &c.Step.Entry
